@@ -263,6 +263,16 @@ class BaseFileWriterSession(BaseWriterSession):
             # The server ignored the Range field and sends the whole
             # document: start over, as Wget does.
             self.open_file(self._filename, response)
+        elif code == http.client.REQUESTED_RANGE_NOT_SATISFIABLE:
+            # Nothing of the document lies behind the end of the local
+            # file: it is complete (or the document has changed). The URL
+            # is not finished though - its links have not been read - and
+            # the answer has no document to read them from: start over at
+            # the next try.
+            _logger.debug('Nothing to continue: starting over {0}.',
+                          self._filename)
+            os.remove(self._filename)
+            self._raise_cannot_continue_error()
         else:
             self._raise_cannot_continue_error()
 
